@@ -98,6 +98,54 @@ Theorem C19_write_paths :
 Proof. exact write_paths_ok. Qed.
 Print Assumptions C19_write_paths.
 
+(* ---- histories: genesis followed by ANY sequence of writes by ANY path (keeper setter, passed
+   proposal, message with or without the permission; the identity registry in any state at each
+   step).  The stored record is valid at every moment, ... *)
+Theorem C19_always_valid_over_histories :
+  forall g ops s, np_run g ops = Some s -> validate s = true /\ valid_specb s = true.
+Proof. exact np_always_valid. Qed.
+Print Assumptions C19_always_valid_over_histories.
+
+Theorem C19_valid_at_every_moment :
+  forall g ops1 ops2 s, np_run g (ops1 ++ ops2) = Some s ->
+  exists s1, np_run g ops1 = Some s1 /\ validate s1 = true /\ valid_specb s1 = true.
+Proof. exact np_prefix_valid. Qed.
+Print Assumptions C19_valid_at_every_moment.
+
+(* ... an invalid genesis record starts no chain, ... *)
+Theorem C19_invalid_genesis_starts_no_chain : forall g ops, validate g = false -> np_run g ops = None.
+Proof. exact np_genesis_invalid_no_chain. Qed.
+Print Assumptions C19_invalid_genesis_starts_no_chain.
+
+(* ... a rejected update leaves all values as they were, a sender without the permission changes
+   nothing, and whatever changes the record is a permitted message storing exactly the requested
+   record or a request that went through the validating single-property setter *)
+Theorem C19_rejected_update_changes_nothing : forall ps o, np_apply ps o = None -> np_step ps o = ps.
+Proof. exact np_rejected_unchanged. Qed.
+Print Assumptions C19_rejected_update_changes_nothing.
+
+Theorem C19_no_permission_changes_nothing : forall ps recs new, np_step ps (OpMsg false recs new) = ps.
+Proof. exact np_unpermitted_unchanged. Qed.
+Print Assumptions C19_no_permission_changes_nothing.
+
+Theorem C19_every_change_was_requested : forall ps o, np_step ps o <> ps ->
+  match o with
+  | OpMsg allowed recs new => allowed = true /\ np_step ps o = new
+  | OpSet recs code v | OpProposal recs code v => set_code recs ps code v = Some (np_step ps o)
+  end.
+Proof. exact np_change_is_requested. Qed.
+Print Assumptions C19_every_change_was_requested.
+
+(* the history clauses of the spec checker (run on the REAL chain's histories) accept every
+   history of the model *)
+Theorem C19_checker_accepts_model_histories :
+  forall ops cur, rhist_clauses cur (model_rsteps cur ops) = [].
+Proof. exact chk_sound_hist. Qed.
+Print Assumptions C19_checker_accepts_model_histories.
+
+Example C19_history_nonvacuous : exists ops s, np_run example_props ops = Some s /\ s <> example_props.
+Proof. exact np_example_history. Qed.
+
 (* non-vacuity: a concrete valid record, a settable identifier, an accepted write *)
 Example C19_nonvacuous :
   exists ps ps', validate ps = true /\ set [] ps P_MaxTxFee (2000000, ""%string) = Some ps'
